@@ -23,7 +23,7 @@ func (c *Contract) hasFlag(name string) bool {
 // closureID registers a closure value and returns its function-value term.
 func (x *Exec) closureID(fn *ssa.Function, bindings []Val) string {
 	id := x.vc.Const("closure."+fn.Name(), "Int")
-	x.vc.Fact(app(">", id, "0"))
+	x.vc.FactFor(id, app(">", id, "0"))
 	if x.closures == nil {
 		x.closures = map[string]*Closure{}
 	}
@@ -35,7 +35,7 @@ func (x *Exec) closureID(fn *ssa.Function, bindings []Val) string {
 		var sorts []string
 		eachLeaf(recv, "", func(p string, lv Val) { args = append(args, lv.S); sorts = append(sorts, x.vc.sortOf(lv.T)) })
 		bf := x.vc.Fun("bound:"+fn.String(), sorts, "Int")
-		x.vc.Fact(Eq(id, app(bf, args...)))
+		x.vc.FactFor(id, Eq(id, app(bf, args...)))
 	}
 	return id
 }
@@ -274,6 +274,12 @@ func (f *frame) callContract(ct *Contract, sig *types.Signature, args []Val, pos
 	if f.top {
 		x.callOrd[key]++
 		ord = x.callOrd[key]
+		if x.callBlock == nil {
+			x.callBlock = map[string]*ssa.BasicBlock{}
+		}
+		if f.curBlock != nil {
+			x.callBlock[fmt.Sprintf("%s#%d", key, ord)] = f.curBlock
+		}
 	}
 	env := x.contractEnv(ct, sig, args, f.st, f.st)
 	// call-site assertions of the caller's contract (at call X#n assert e)
@@ -383,6 +389,14 @@ func (x *Exec) havocModifies(f *frame, ct *Contract, env *Env, pre *State) {
 					continue
 				}
 				elem := sort[len("(Array Int ") : len(sort)-1]
+				if mt.subkey != "" && !strings.HasPrefix(k, "ML:") {
+					// only one entry of the map may change
+					parts := strings.SplitN(strings.TrimSuffix(strings.TrimPrefix(elem, "(Array "), ")"), " ", 2)
+					vs := parts[1]
+					fresh := x.vc.Const("hv."+k, vs)
+					h.set(f.st, k, sort, Ite(Eq(mt.target, "0"), cur, Store(cur, mt.target, Store(Select(cur, mt.target), mt.subkey, fresh))))
+					continue
+				}
 				fresh := x.vc.Const("hv."+k, elem)
 				h.set(f.st, k, sort, Ite(Eq(mt.target, "0"), cur, Store(cur, mt.target, fresh)))
 			}
@@ -410,6 +424,18 @@ func (x *Exec) resolveModifies(env *Env, c *Clause) (out []modTarget) {
 			m := env.Eval(n.Args[0])
 			mi := h.mapInfo(m.T)
 			mt := modTarget{target: m.S, text: c.Text}
+			mt.keys = append(mt.keys, mi.domKey, mi.lenKey)
+			mt.sorts = append(mt.sorts, mi.domSort, h.arrSort("Int"))
+			for _, l := range leaves(mi.m.Elem()) {
+				mt.keys = append(mt.keys, mi.valKey(l.Path))
+				mt.sorts = append(mt.sorts, h.arrSort("(Array "+mi.ksort+" "+vc.sortOf(l.T)+")"))
+			}
+			return []modTarget{mt}
+		case "mapkey":
+			m := env.Eval(n.Args[0])
+			mi := h.mapInfo(m.T)
+			kv := env.coerce(env.Eval(n.Args[1]), mi.m.Key())
+			mt := modTarget{target: m.S, subkey: kv.S, text: c.Text}
 			mt.keys = append(mt.keys, mi.domKey, mi.lenKey)
 			mt.sorts = append(mt.sorts, mi.domSort, h.arrSort("Int"))
 			for _, l := range leaves(mi.m.Elem()) {
@@ -526,6 +552,10 @@ func (f *frame) builtin(b *ssa.Builtin, c *ssa.CallCommon, args []Val, site ssa.
 		switch under(v.T).(type) {
 		case *types.Map:
 			f.assume(h.mapFacts(f.st, v, ""))
+			// a map with a key has positive length (needed to reason about `len(m) == 0` tests)
+			mi := h.mapInfo(v.T)
+			q := sym(x.vc.fresh("lk"))
+			f.assume("(forall ((" + q + " " + mi.ksort + ")) " + Implies(Select(h.mapDom(f.st, v), q), app(">=", h.mapLen(f.st, v), "1")) + ")")
 			return Val{T: intT, S: h.mapLen(f.st, v)}
 		case *types.Slice:
 			return Val{T: intT, S: v.Fs[2].S}
@@ -699,7 +729,7 @@ func (f *frame) runDefers(n *ssa.RunDefers) {
 		}
 		ran := f.cur
 		skipped := x.vc.Def("dfr", "Bool", And(saveCur, Not(flag)))
-		f.st = x.mergeStates([]edgeIn{{nil, ran, f.st}, {nil, skipped, saveSt}})
+		f.st = x.mergeStates([]edgeIn{{cond: ran, st: f.st}, {cond: skipped, st: saveSt}})
 		f.cur = x.vc.Def("dfr", "Bool", Or(ran, skipped))
 	}
 }
